@@ -19,7 +19,7 @@ GROUPS = ["strong", "alt", "freebsd", "glibc", "netbsd", "openbsd", "osx", "owl"
           "debian", "fedora"]
 
 CHEAP = {
-    "yescrypt": [b"$y$j5.$c2FsdHNhbHQ", b"$y$/3/$7Dx0/"], "gost_yescrypt": [b"$gy$j5.$c2FsdHNhbHQ", b"$gy$.2/$12345/"],
+    "yescrypt": [b"$y$j5.$c2FsdHNhbHQ", b"$y$/3/$7Dx0/", b"$y$.5/$saltsalt"], "gost_yescrypt": [b"$gy$j5.$c2FsdHNhbHQ", b"$gy$.2/$12345/"],
     "scrypt": [b"$7$3/..../....saltsalt", b"$7$2/....0....ab$cd$"],
     "bcrypt": [b"$2b$04$abcdefghijklmnopqrstuu"], "bcrypt_y": [b"$2y$04$abcdefghijklmnopqrstuu"],
     "bcrypt_a": [b"$2a$04$abcdefghijklmnopqrstuu"], "bcrypt_x": [b"$2x$04$abcdefghijklmnopqrstuu"],
@@ -141,6 +141,10 @@ def run_corpus(exe, corp):
     gl.append(("NULL", None))
     for m, pre in gl:
         lines.append(rt.gensalt_line("rn", pre, 0, rb, 64, 192))
+    # counts other than 0: acceptance must not depend on which sibling method is the table's entry point
+    for m, pre in gl:
+        for cnt in (1, 5):
+            lines.append(rt.gensalt_line("rn", pre, cnt, rb, 64, 192))
     lines.append("preferred")
     res, end = w.run(lines, 600)
     w.stop()
@@ -154,6 +158,14 @@ def run_corpus(exe, corp):
     for k, (m, pre) in enumerate(gl):
         r = res[base + k]
         out["gensalt"][m] = (rt.out_of(r) if r["r"] == "O" else None, rt.errno_of(r))
+    out["gensalt_counts"] = {}
+    base2 = base + len(gl)
+    j = 0
+    for m, pre in gl:
+        for cnt in (1, 5):
+            r = res[base2 + j]
+            j += 1
+            out["gensalt_counts"][(m, cnt)] = (rt.out_of(r) if r["r"] == "O" else None, rt.errno_of(r))
     return out, None, lines
 
 
@@ -211,6 +223,18 @@ def judge(acc, name, en, got, full, corp, ipd):
             viol("gensalt", "crypt_gensalt_rn(prefix of %s) = %r, expected %r" % (m, g, exp))
         elif exp is None and e != rt.EINVAL:
             viol("gensalt-errno", "disabled prefix %s: errno %d, want EINVAL" % (m, e))
+    for (m, cnt), (g, e) in got["gensalt_counts"].items():
+        acc.count("evaluations")
+        fg, fe = full["gensalt_counts"][(m, cnt)]
+        if m == "NULL":
+            pmn = next((x for x in gen.DEFAULT_ORDER if x in en), None)
+            exp = full["gensalt_counts"][(pmn, cnt)][0] if pmn else None
+        elif m == "bigcrypt":
+            exp = (fg if (des_b and des_d) or des_d else (fg + b"." * 12 if fg and des_b else None)) if (des_b or des_d) else None
+        else:
+            exp = fg if m in en else None
+        if g != exp:
+            viol("gensalt-count", "crypt_gensalt_rn(prefix of %s, count %d) = %r, the full build gives %r" % (m, cnt, g, exp))
     pm = next((gen.TAG[x] for x in gen.DEFAULT_ORDER if x in en), None)
     acc.count("evaluations")
     if got["preferred"] != pm:
